@@ -159,7 +159,12 @@ fn shape_ok(decls: &[Decl], ty: &Ty, o: &OShallow) -> Result<(), String> {
                 return Err(format!("kind-{}", o.kind));
             }
             if o.name != d.declared_name() {
-                return Err("nested-type-name".into());
+                let split = match d {
+                    Decl::Struct(s) => struct_is_split(s),
+                    Decl::Enum(e) => enum_is_split(e),
+                    Decl::Union(u) => union_is_split(u),
+                };
+                return Err(if split { "SPLIT".into() } else { "nested-type-name".into() });
             }
             Ok(())
         }
@@ -266,7 +271,7 @@ fn check_struct(decls: &[Decl], s: &StructD, o: &OType, out: &mut Vec<Finding>) 
         }
         if let Err(r) = shape_ok(decls, &f.ty, &m.ty) {
             out.push(finding(
-                format!("C40:member-type:{}:{}", ty_pattern(decls, &f.ty), r),
+                if r.ends_with("SPLIT") { SPLIT_SIG.to_string() } else { format!("C40:member-type:{}:{}", ty_pattern(decls, &f.ty), r) },
                 format!("{}.{}: declared {}, published {}", s.ident, m.name, render_ty(decls, &f.ty), m.ty.brief()),
             ));
         }
@@ -400,7 +405,7 @@ fn check_union(decls: &[Decl], u: &UnionD, o: &OType, out: &mut Vec<Finding>) {
             };
             if let Err(r) = r {
                 out.push(finding(
-                    format!("C40:union-switch:{r}"),
+                    if r.ends_with("SPLIT") { SPLIT_SIG.to_string() } else { format!("C40:union-switch:{r}") },
                     format!("{}: switch type published as {}", u.ident, d.brief()),
                 ));
             }
@@ -436,7 +441,7 @@ fn check_union(decls: &[Decl], u: &UnionD, o: &OType, out: &mut Vec<Finding>) {
             VShape::Tuple(t) | VShape::Named(_, t) => {
                 if let Err(r) = shape_ok(decls, t, &m.ty) {
                     out.push(finding(
-                        format!("C40:member-type:{}:{}", ty_pattern(decls, t), r),
+                        if r.ends_with("SPLIT") { SPLIT_SIG.to_string() } else { format!("C40:member-type:{}:{}", ty_pattern(decls, t), r) },
                         format!("{}::{}: declared {}, published {}", u.ident, v.ident, render_ty(decls, t), m.ty.brief()),
                     ));
                 }
@@ -464,7 +469,12 @@ fn check_union(decls: &[Decl], u: &UnionD, o: &OType, out: &mut Vec<Finding>) {
                         format!("{}::{}: variant {} has no case (README: its label defaults to the 0-based variant index {}), it is published with labels {:?}, which another variant declares", u.ident, v.ident, idx, idx, got),
                     ));
                 }
-            } else if !(got == vec![idx as i64] || got == vec![idx as i64 + 1]) || collides {
+            } else if collides {
+                out.push(finding(
+                    IMPLICIT_LABEL_SIG,
+                    format!("{}::{}: variant {} has no case (README: its label defaults to the 0-based variant index {}), it is published with labels {:?}, which another variant declares", u.ident, v.ident, idx, idx, got),
+                ));
+            } else if !(got == vec![idx as i64] || got == vec![idx as i64 + 1]) {
                 out.push(finding(
                     "C40:union-label:caseless-variant-label",
                     format!("{}::{}: variant {} without case published with labels {:?}", u.ident, v.ident, idx, got),
@@ -493,12 +503,14 @@ fn rt_shape(decls: &[Decl], v: &Val, acc: &mut Vec<&'static str>) {
                         acc.push("C40:roundtrip:union-variant-declared-after-default-variant");
                     }
                 }
-                if var.cases.is_empty() {
-                    let others: Vec<i64> =
-                        u.variants.iter().enumerate().filter(|(j, _)| j != k).flat_map(|(_, w)| w.cases.clone()).collect();
-                    if others.contains(&(*k as i64 + 1)) || others.contains(&(*k as i64)) {
-                        acc.push(IMPLICIT_LABEL_SIG);
-                    }
+                let _ = var;
+                // some caseless variant's position (+1 as implemented) equals a declared case of another variant
+                let collision = u.variants.iter().enumerate().any(|(j, w)| {
+                    w.cases.is_empty()
+                        && u.variants.iter().enumerate().any(|(j2, w2)| j2 != j && (w2.cases.contains(&(j as i64 + 1)) || w2.cases.contains(&(j as i64))))
+                });
+                if collision {
+                    acc.push(IMPLICIT_LABEL_SIG);
                 }
             }
             if let Some(x) = p {
